@@ -140,6 +140,8 @@ Definition pattach : parser attach_op :=
   if N.eqb c 71 (* G *) then
     path <~ ppath ;; short <~ pstr ;; long <~ pstr ;; fs <~ pfields ;; ns <~ pstr ;; envns <~ pstr ;; h <~ pbool ;;
     pret (AtGroup path short long fs ns envns h)
+  else if N.eqb c 79 (* O *) then
+    path <~ ppath ;; fs <~ pfields ;; pret (AtOption path fs)
   else
     path <~ ppath ;; name <~ pstr ;; short <~ pstr ;; long <~ pstr ;; fs <~ pfields ;; ex <~ pexec ;;
     us <~ popt pstr ;; al <~ plist pstr ;; h <~ pbool ;; so <~ pbool ;;
